@@ -8,8 +8,8 @@
 (*                                                                          *)
 (* A `plan` fixes the run: the -m / -l arguments (each naming one file with *)
 (* a kind), the -o target, and at most one option / generator fault.        *)
-(* Modelled as the code does it: every -m argument is loaded before every   *)
-(* -l argument; all files are read before anything is validated; the        *)
+(* The arguments are loaded in command-line order (-m and the deprecated    *)
+(* -l alike); all files are read before anything is validated; the          *)
 (* output file is opened only after the whole text has been rendered.       *)
 (*                                                                          *)
 (* plan = [args: Seq([flag: "m"|"l", model, kind, ids: Seq(sample id)]),    *)
@@ -30,8 +30,8 @@ LoadFails == {"missing", "malformed", "badlookup", "scalar", "noglob"}     \* no
 GenFails  == {"nonobject", "nonstrkey"}
 OkKinds   == {"list", "object", "lookup", "glob"}     \* glob: a pattern matching two files; their order is unspecified
 
-\* the order in which the code reads the arguments: -m arguments first, then -l arguments
-LoadOrder(args) == SelectSeq(args, LAMBDA a : a.flag = "m") \o SelectSeq(args, LAMBDA a : a.flag = "l")
+\* the order in which the arguments are read: the order of the command line, -m and -l alike (C16: "argument order")
+LoadOrder(args) == args
 \* C16: samples of one model name = concatenation, in that order, of what each of its files contributes
 RECURSIVE Concat(_)
 Concat(ss) == IF ss = <<>> THEN <<>> ELSE Head(ss) \o Concat(Tail(ss))
